@@ -188,9 +188,15 @@ def judgeSym (r : Req) : String :=
       let c07 := match (r.get "emode"), p.segments with
         | some em, [s] => if c07 == "ok" || c07 == "-" then (if em == toString s.mode then c07 else s!"mode-reported-{em}-symbol-{s.mode}") else c07
         | _, _ => c07
+      -- C02 metadata: a reported mode must be the mode indicator of every segment in the symbol
+      let c02 := match (r.get "emode") with
+        | some em => if c02 == "ok" && em != "-" && p.segments.any (fun s => toString s.mode != em)
+                     then s!"mode-reported-{em}-but-symbol-has-modes-{p.segments.map Segment.mode}" else c02
+        | none => c02
       let sa := match p.sa with | some (a, b, c) => s!"{a}:{b}:{c}" | none => "-"
       let segs := ",".intercalate (p.segments.map (fun s =>
         s!"{s.mode}:{match s.eci with | some e => toString e | none => "-"}:{s.count}"))
+      let common := s!"id={id} hdr=ok v={h.version} lvl={h.level} mask={h.mask} cap={cap} c02={c02} c03={c03} c06={c06}"
       s!"{common} parse=ok end={p.endPos} sa={sa} c01={c01} c04={c04} c05={c05} c07={c07} c13={c13} segs={segs} bytes={hexOfBytes (p.segments.map (·.bytes)).flatten} cw={hexOfBytes d.blocks.data.flatten}"
 
 /-! ### the `fit` command: what should `make` do for single-part content (C04 / C07 / C14 refusals) -/
